@@ -147,6 +147,16 @@ func Harness_C17_foreign_archive() {
 		return
 	}
 	vm.Assert("C17.close_new_file", h.Close() == nil)
+	if vm.Bool("removeAndAddAgain") {
+		// further calls: the entry is removed and added once more under the same path
+		vm.Assert("C17.remove_added_entry", v.FS.Remove(newName) == nil)
+		h2, cerr2 := v.FS.Create(newName)
+		vm.Assert("C17.add_again_after_remove", cerr2 == nil)
+		if cerr2 != nil {
+			return
+		}
+		vm.Assert("C17.close_added_again", h2.Close() == nil)
+	}
 	sub2, _ := inventory.List(md, prefix+d, -1, nil)
 	vm.Assert("C17.new_entry_listed_with_old_member", len(sub2) == 2)
 	rb, rerr := c01Rebuild(v)
@@ -157,6 +167,21 @@ func Harness_C17_foreign_archive() {
 		vm.Assert("C17.rebuild_shows_old_and_new", e3 == nil && len(sub3) == 2)
 		rroot, _ := rb.GetRootPath(context.Background())
 		vm.Assert("C17.rebuild_same_root", rroot == root)
+	}
+	// arbitrary further calls on the original members: they can be renamed and removed like any other entry
+	switch vm.Choice("thenOnMember", 4) {
+	case 1:
+		vm.Assert("C17.foreign_member_can_be_renamed", v.FS.Rename(prefix+g, prefix+"z") == nil)
+		_, se := v.FS.Stat(prefix + "z")
+		vm.Assert("C17.renamed_foreign_member_is_there", se == nil)
+	case 2:
+		vm.Assert("C17.foreign_member_can_be_removed", v.FS.Remove(prefix+g) == nil)
+		_, se := v.FS.Stat(prefix + g)
+		vm.Assert("C17.removed_foreign_member_is_gone", se != nil)
+	case 3:
+		vm.Assert("C17.foreign_directory_can_be_removed_recursively", v.FS.RemoveAll(prefix+e) == nil)
+		_, se := v.FS.Stat(prefix + e + "/k")
+		vm.Assert("C17.removed_foreign_subtree_is_gone", se != nil)
 	}
 	vm.Assert("C17.locks_free", v.Env.LocksFree())
 }
